@@ -34,7 +34,7 @@ ASSUMPTIONS = [
 ]
 TECHNIQUE = "relational (two-run) runtime monitor: response vs transposed response over paired public properties"
 DESIGN_REF = "DESIGN.md 4 C10"
-WEIGHTS = ["none", "frac", "zeros", "float"]
+WEIGHTS = ["none", "frac", "zeros", "float", "tiny"]
 MSETS = [(), ("sum",), (), ("mean", "stddev"), ("sum", "mean"), ()]
 REQUIRED_REACH = ["paired", "direction_free", "orders", "masks", "class:ins", "class:diff",
                   "class:transformed", "class:sum_measure", "class:pair=CATxMR",
